@@ -23,6 +23,8 @@
 /* Maximum possible digest size. Used for buffers allocation. */
 #include "sha512.h"
 #define SCRAM_DIGEST_SIZE SHA512_DIGEST_SIZE
+/* longest salt SCRAM_Hi() can process */
+#define SCRAM_SALT_MAX_LEN 124
 
 struct hash_alg {
     const char *scram_name;
